@@ -55,7 +55,7 @@ def run(ctx):
                 i1 = 0                               # the looser run uses a level well above one half, the stricter one a level around it or below
                 i2 = rng.choice([1, 2, 3])
             if vals is None and p["statistic"] != "tstat" and i % 4 == 1:
-                i1, i2 = rng.choice([0, 1]), rng.choice([4, 5])     # a count of deviations below one against a count of one or more
+                i1, i2 = [(0, 4), (0, 5), (1, 4)][(i // 4) % 3]     # a count of deviations below one (0.05 / 0.3) against a count of one or more (1.0 / 1.5)
             if vals is not None and i == 0:         # the strictest legal setting of the family against a looser one, every time
                 i2 = len(vs) - 1
                 i1 = rng.randrange(i2)
@@ -63,6 +63,12 @@ def run(ctx):
             loose[par], strict[par] = vs[i1], vs[i2]
             n = rng.randint(8, 12) if batch else (rng.randint(150, 300) if fam not in ("KdqTreeStreaming", "LinearFourRates") else 100)
             items = P.gen_items(fam, rng, n)
+            if vals is None and p["statistic"] != "tstat" and i % 4 == 1:
+                # a calm stretch first (several batches from one distribution, detect_batch=3): the two runs hold thresholds side by side before either alarms
+                loose["detect_batch"] = strict["detect_batch"] = 3
+                d_ = 1 if fam == "CDBD" else 2
+                c_, sp_ = [rng.randint(-5, 5) for _ in range(d_)], rng.randint(6, 12)
+                items = [[[x + rng.randint(0, sp_) for x in c_] for _ in range(rng.choice([24, 30, 40]))] for _ in range(7)] + items[:4]
             if fam == "PageHinkley" and i % 2 == 0:
                 items = [abs(x) + 0.5 for x in items]       # positive data: the relation must hold outright
             ts.append(P.two_runs(fam, strict, loose, items, rng.randrange(10 ** 6), "FirstDriftNotLater", extra={"par": par}))
